@@ -541,6 +541,11 @@ func runC18(c *fw.Ctx) int {
 	if err != nil {
 		c.BrokenProof = append(c.BrokenProof, "json corpus: "+err.Error())
 	}
+	if rs, err := requiredSchemas(); err != nil {
+		c.BrokenProof = append(c.BrokenProof, "json corpus: "+err.Error())
+	} else {
+		ts = append(ts, rs...)
+	}
 	n := 12
 	if c.Tier == "thorough" {
 		n = 600
@@ -550,6 +555,8 @@ func runC18(c *fw.Ctx) int {
 			jsonCase(c, t)
 		}
 	}
+	// required fields anywhere in the message tree (proto3 messages that embed proto2 messages included)
+	requiredStream(c, ts, 3*n)
 	jsonNilCases(c, ts)
 	var names []string
 	for _, t := range ts {
@@ -561,7 +568,7 @@ func runC18(c *fw.Ctx) int {
 		c.LeanChecker("C18")
 	}
 	return c.Finish(
-		"json: every message type of the six example packages (gogo, golang-v1 API, google v2; proto2 and proto3; scalars, enums, repeated, maps, oneofs, optionals, nested, well-known types) with random values (built through the runtime's own wire decoder) x random option combinations: the adapter's output is well-formed JSON, equals (as JSON) the owning runtime's own marshaler with the equivalent options, the indentation / enum-number / zero-value options have their documented effect on the text, the unmarshaling adapter and the owning runtime's own JSON decoder both accept it and return the original message, an injected unknown key is refused without and tolerated with the option, a removed required key likewise (google runtimes), nil and typed-nil messages; non-trivial = non-empty message",
+		"json: every message type of the six example packages (gogo, golang-v1 API, google v2; proto2 and proto3; scalars, enums, repeated, maps, oneofs, optionals, nested, well-known types) with random values (built through the runtime's own wire decoder) x random option combinations: the adapter's output is well-formed JSON, equals (as JSON) the owning runtime's own marshaler with the equivalent options, the indentation / enum-number / zero-value options have their documented effect on the text, the unmarshaling adapter and the owning runtime's own JSON decoder both accept it and return the original message, an injected unknown key is refused without and tolerated with the option, a removed required key likewise (google runtimes), nil and typed-nil messages; required: every Google-runtime type of the corpus that can reach a required field plus two hand-written schemas served by dynamicpb (a proto2 file with required fields up to three messages deep; a proto3 file importing it whose messages embed the proto2 ones as singular field, list element, map value, oneof member, directly and through further proto3 messages): the JSON text of a fully initialized random value with ONE required key removed anywhere in the tree must be refused without JSONAllowPartialMessages (and with the option set to false) and decoded to the owning runtime's AllowPartial result with it; non-trivial = non-empty message",
 		append(trustedCommon, "the three runtimes' JSON codecs (protojson, golang jsonpb, gogo jsonpb) as oracles"),
 		[]string{"the JSON codecs of the runtimes are assumptions (trusted, exercised); only csproto's option wiring and dispatch are modelled in Lean"})
 }
